@@ -21,6 +21,12 @@ def aff(c, **co):
     return ["aff", float(c), {k: float(v) for k, v in co.items()}]
 
 
+def affd(c, defaults, **co):
+    """affine shape function some of whose variables have a DEFAULT in the generated Python function
+    (`lambda t, r0=1.0: ...`); the denotation is the same affine function of the supplied values"""
+    return ["aff", c, co, dict(defaults)]
+
+
 def I(a, b, var="x"):
     return {"k": "interval", "var": var, "a": a, "b": b}
 
@@ -92,7 +98,7 @@ def BR(a):
 
 
 def is_aff(e):
-    return isinstance(e, list) and len(e) == 3 and e[0] == "aff"
+    return isinstance(e, list) and len(e) in (3, 4) and e[0] == "aff"
 
 
 PRIMS = ("interval", "circle", "para", "tri", "sphere", "poly", "point", "mesh")
@@ -108,6 +114,8 @@ def show(a):
             s = "%g" % x[1]
             for v, c in x[2].items():
                 s += "%+g%s" % (c, v)
+                if len(x) > 3 and v in x[3]:
+                    s += "[=%g]" % x[3][v]
             return s
         if isinstance(x, list):
             return "(" + ",".join(e(y) for y in x) + ")"
